@@ -206,9 +206,12 @@ func (e *Engine) VerifyFunc(fn *ssa.Function, fc *contract.Func) (rep *FuncRepor
 		}
 		penv.setResult(o.result, fn.Signature)
 		o.st.label("exit")
+		// instances stated at the exits are plain (guarded) hypotheses: their indices may be meaningless on some exits
+		e.noRewrite = true
 		for _, u := range fc.Uses {
 			o.st.assume(e.evalBool(penv, u))
 		}
+		e.noRewrite = false
 		for _, en := range fc.Ensures {
 			e.addOblig(o.st, "post", clauseLabel(en), propsOr(en.Props, "SAFETY"), e.evalBool(penv, en.Expr), fn.Pos())
 		}
